@@ -74,7 +74,7 @@ def main():
             old = {}
             if os.path.exists(os.path.join(out, "meta.json")):
                 old = json.load(open(os.path.join(out, "meta.json")))
-            for k in ("needs", "what", "history"):
+            for k in ("needs", "what", "history", "round", "strengthened"):
                 if k in old:
                     meta[k] = old[k]
             meta.setdefault("history", [])
